@@ -261,7 +261,10 @@ def check_key_derivation(chk, F):
                   "for /*, hardened for /*h, refused when i >= 2^31), leaves other keys alone, refuses multipath keys and "
                   "every result with a hardened step (an xpub cannot derive it); into_single_keys yields one key per "
                   "alternative, in order, with the same origin / xkey / wildcard; full_derivation_path(s) = origin path + "
-                  "path; derive_public_key derives the xkey along exactly that path")
+                  "path; derive_public_key derives the xkey along exactly that path; derivation_path(s) are the path(s) "
+                  "without the origin; the text is a DefiniteDescriptorKey exactly when nothing is left to choose (no wildcard, "
+                  "no multipath step, no hardened step), and the wrapper's accessors / conversions return the wrapped key and "
+                  "its full paths")
     DPK = c10.DPK
     CHILD = c10.CHILD
     fs = [it["path"] for i in F.impls if i["trait"] == "std::str::FromStr" and i["self_adt"] == DPK
@@ -276,6 +279,23 @@ def check_key_derivation(chk, F):
         names[nm] = cands[0]
     dpk = [x for x in F.fn("derive_public_key", file="descriptor/key.rs", allow_many=True) if "DefiniteDescriptorKey" in x][0]
     chk.saw(fs[0], dpk, *names.values())
+    extra = {}
+    DDK = "descriptor::key::DefiniteDescriptorKey"
+    try:
+        for nm in ("derivation_path", "derivation_paths"):
+            extra[nm] = [x for x in F.fn(nm, file="descriptor/key.rs", allow_many=True) if "DescriptorPublicKey" in x and "Definite" not in x
+                         and "{closure" not in x][0]
+        extra["definite_from_str"] = [it["path"] for i in F.impls if i["trait"] == "std::str::FromStr" and i["self_adt"] == DDK
+                                      for it in i["items"] if it["name"] == "from_str"][0]
+        for nm, fnm in (("as_descriptor_public_key", "as_descriptor_public_key"), ("into_descriptor_public_key", "into_descriptor_public_key"),
+                        ("definite_full_paths", "full_derivation_paths"), ("definite_full_path", "full_derivation_path")):
+            extra[nm] = [x for x in F.fn(fnm, file="descriptor/key.rs", allow_many=True) if "DefiniteDescriptorKey" in x and "{closure" not in x][0]
+        extra["from_definite"] = [it["path"] for i in F.impls if i["self_adt"] == DPK and (i["trait"] or "").startswith("std::convert::From")
+                                  and "DefiniteDescriptorKey" in (i.get("trait_str") or i["trait"]) for it in i["items"] if it["name"] == "from"][0]
+    except (IndexError, KeyError) as e:
+        chk.fail(rid, "anchor|definite", "DefiniteDescriptorKey entry points / derivation_path(s) not found: %r" % (e,), kind="unanalysable")
+        return
+    chk.saw(*extra.values())
     m = c10.key_machine(F)
     h = m.hooks
 
@@ -366,6 +386,36 @@ def check_key_derivation(chk, F):
             want = None if multi else opath + sp["paths"][0]
             if got != want:
                 bad.append("full_derivation_path gives %r, expected %r" % (got, want))
+            # the paths without the origin
+            r7 = m.call_path(extra["derivation_path"], [K])
+            got = None if r7.variant == "None" else steps(r7.fields["0"])
+            want = None if multi else sp["paths"][0]
+            if got != want:
+                bad.append("derivation_path gives %r, expected %r" % (got, want))
+            r8 = m.call_path(extra["derivation_paths"], [K])
+            got = [steps(x) for x in deref(r8).items]
+            if got != sp["paths"]:
+                bad.append("derivation_paths gives %r, expected %r" % (got, sp["paths"]))
+            # the definite-key wrapper: the same text is a DefiniteDescriptorKey exactly when nothing is left to choose
+            r9 = m.call_path(extra["definite_from_str"], [s_])
+            # (nor can an extended *public* key take a hardened step)
+            definite = not multi and sp["wildcard"] == "None" and not any(kd == "Hardened" for kd, _ in sp["paths"][0])
+            if (r9.variant == "Ok") != definite:
+                bad.append("DefiniteDescriptorKey::from_str is %s" % (repr(r9)[:120],))
+            elif definite:
+                D = r9.fields["0"]
+                if view(deref(D).fields["0"]) != base_view:
+                    bad.append("DefiniteDescriptorKey::from_str holds %r" % (view(deref(D).fields["0"]),))
+                for nm in ("as_descriptor_public_key", "into_descriptor_public_key", "from_definite"):
+                    v = m.call_path(extra[nm], [dcopy(D)])
+                    if view(v) != base_view:
+                        bad.append("%s gives %r" % (nm, view(v)))
+                v = m.call_path(extra["definite_full_paths"], [D])
+                if [steps(x) for x in deref(v).items] != [opath + p for p in sp["paths"]]:
+                    bad.append("DefiniteDescriptorKey::full_derivation_paths gives %r" % ([steps(x) for x in deref(v).items],))
+                v = m.call_path(extra["definite_full_path"], [D])
+                if v.variant != "Some" or steps(v.fields["0"]) != opath + sp["paths"][0]:
+                    bad.append("DefiniteDescriptorKey::full_derivation_path gives %r" % (v,))
             chk.obligation(rid, not bad, key, "; ".join(bad[:3]).replace(c10.XPUB, "XPUB")[:700], where="src/descriptor/key.rs")
             n_ok += 1
         except Unsupported as e:
@@ -641,7 +691,8 @@ def check_secret_keys(chk, F, rid="R16.8", text_rule=None):
                       "the hardened prefix of the path (up to the last hardened step; for multipath keys: of the shared prefix) is "
                       "applied to the private key and moved into the origin (fingerprint kept, or the key's own when there was "
                       "none), the rest stays as path(s) with the same wildcard, so origin path + path is unchanged; a hardened step "
-                      "inside the alternatives is refused")
+                      "inside the alternatives is refused; the secret key's into_single_keys yields one key per alternative, in "
+                      "order, spelled as the text with the multipath step replaced, and is_multipath says whether there are several")
     else:
         chk.rule(text_rule, "secret key expressions (extended private keys x origin x path x multipath x wildcard) parse, print back as "
                             "the same text, and that text parses to an equal key")
@@ -653,6 +704,15 @@ def check_secret_keys(chk, F, rid="R16.8", text_rule=None):
         chk.fail(text_rule or rid, "anchor", "DescriptorSecretKey::from_str / to_public not found", kind="unanalysable")
         return
     chk.saw(fs, tp)
+    split = None
+    if text_rule is None:
+        try:
+            split = ([q for q in F.fns if q.endswith("DescriptorSecretKey::into_single_keys")][0],
+                     [q for q in F.fns if q.endswith("DescriptorSecretKey::is_multipath")][0])
+            chk.saw(*split)
+        except IndexError:
+            chk.fail(rid, "anchor|split", "DescriptorSecretKey::into_single_keys / is_multipath not found", kind="unanalysable")
+            return
     m = c10.key_machine(F)
     derivation_hooks(m)
     XPRV, texts = secret_texts()
@@ -683,6 +743,23 @@ def check_secret_keys(chk, F, rid="R16.8", text_rule=None):
                     continue
                 sp = spec_key(t.replace(XPRV, c10.XPUB))       # same grammar; the base is put back below
                 paths = sp["paths"]
+                if split is not None and paths is not None:
+                    # the secret key's own multipath split: one key per alternative, in order, spelled as the text with the
+                    # <a;b;..> step replaced by that alternative
+                    import re as _re
+                    from ..interp import dcopy as _dc
+                    im = m.call_path(split[1], [sk])
+                    if im is not (len(paths) > 1):
+                        chk.fail(R, key + "|is_multipath", "is_multipath is %r for %d path(s)" % (im, len(paths)), where="src/descriptor/key.rs")
+                    singles = m.call_path(split[0], [_dc(sk)])
+                    got_t = []
+                    for x in deref(singles).items:
+                        out, _ = tm.display(m, x)
+                        got_t.append("".join(map(str, out)))
+                    mo = _re.search(r"<([^>]*)>", t)
+                    want_t = [t[:mo.start()] + alt + t[mo.end():] for alt in mo.group(1).split(";")] if mo else [t]
+                    chk.obligation(R, got_t == want_t, key + "|into_single_keys", "into_single_keys gives %r, expected %r" % (
+                        [x.replace(XPRV, "XPRV") for x in got_t], [x.replace(XPRV, "XPRV") for x in want_t]), where="src/descriptor/key.rs")
                 res = m.call_path(tp, [sk, Term("secp")])
                 # specification
                 if paths is None:
